@@ -250,5 +250,5 @@ def view(spec):
     return d
 
 
-PARTS = {"integrator": {"strategy": spec_ext, "check": check_ext, "examples": {"quick": 2000, "thorough": 30000}, "sample": view}}
+PARTS = {"integrator": {"strategy": spec_ext, "check": check_ext, "examples": {"quick": 12000, "thorough": 30000}, "sample": view}}
 REQUIRED_STRATA = {"all": ["integrator:tsf", "integrator:tsf_lang", "integrator:reflection", "integrator:lang", "integrator:nve", "integrator:newrun", "integrator:walls", "integrator:per"]}
